@@ -317,6 +317,36 @@ func c12Resub(row cat.Row, word []h.Ev) fw.Case {
 	}}
 }
 
+// c12ResubAfter: the source plays word A for the first subscription of the pipeline and word B for the
+// second; the second subscription must be what a freshly built pipeline over B delivers - whatever the
+// first one went through (an error, an early end) must not be remembered by the pipeline value.
+func c12ResubAfter(row cat.Row, a, b []h.Ev) fw.Case {
+	return fw.Case{Name: "resubscribe-after:" + h.Word(a) + " then " + h.Word(b), Opts: seqOpts(row), Make: func() fw.Instance {
+		r1, r2, f1, f2 := h.NewRec("s1"), h.NewRec("s2"), h.NewRec("fresh1"), h.NewRec("fresh2")
+		body := func() {
+			cur := a
+			l := row.Start(cat.Setup{Kind: cat.SrcScript, WordFn: func() []h.Ev { return cur }, Rec: r1})
+			cur = b
+			l.Resub(r2)
+			row.Start(cat.Setup{Kind: cat.SrcScript, Word: a, Rec: f1})
+			row.Start(cat.Setup{Kind: cat.SrcScript, Word: b, Rec: f2})
+		}
+		return fw.Instance{Body: body, Outcome: func() string { return r1.Trace() + "|" + r2.Trace() }, Check: func(r *vrt.Result) []fw.Violation {
+			if len(r.Blocked) > 0 || r.HorizonHit {
+				return nil // Subscribe never returned (open source under a waiting operator): C14's business
+			}
+			if !h.SameTrace(r1.Events(), f1.Events()) {
+				return nil // reported by the same-word case
+			}
+			if !h.SameTrace(r2.Events(), f2.Events()) {
+				return []fw.Violation{fw.V("seq/"+row.Name+"/resubscription-remembers-previous-run/"+diffClass(r2.Events(), f2.Events()),
+					fmt.Sprintf("first subscription over [%s], second over [%s]: the second received [%s]; a freshly built pipeline over [%s] delivers [%s]", h.Word(a), h.Word(b), r2.Trace(), h.Word(b), f2.Trace()))}
+			}
+			return nil
+		}}
+	}}
+}
+
 // c12Apply: one operator value applied to three different sources, subscribed in every order.
 func c12Apply(row cat.Row, words [3][]h.Ev, order [3]int) fw.Case {
 	nm := fmt.Sprintf("apply-order%v:%s/%s/%s", order, h.Word(words[0]), h.Word(words[1]), h.Word(words[2]))
